@@ -91,7 +91,7 @@ func (*engine) Plan(tier string) int64 {
 	if tier == "thorough" {
 		return 1000000
 	}
-	return 50000
+	return 30000
 }
 
 func (*engine) Describe() simkit.Description {
